@@ -20,7 +20,6 @@ import (
 
 	"github.com/cosmos/cosmos-sdk/crypto/keys/ed25519"
 	"github.com/settlus/chain/app"
-	"github.com/settlus/chain/testutil"
 	"github.com/settlus/chain/utils"
 	otypes "github.com/settlus/chain/x/oracle/types"
 	stypes "github.com/settlus/chain/x/settlement/types"
@@ -28,8 +27,10 @@ import (
 
 // BeginChain brings a keyed world to the first block in which transactions can be delivered.
 func (w *World) BeginChain() {
-	ctx, err := testutil.Commit(w.Ctx, w.A, 1e9, nil)
-	must(err)
+	// the chain's first block is open: transactions of a history may arrive in block 1
+	header := w.Ctx.BlockHeader()
+	w.A.BeginBlock(abci.RequestBeginBlock{Header: header})
+	ctx := w.A.BaseApp.NewContext(false, header)
 	w.Ctx = ctx
 	p := w.A.EvmKeeper.GetParams(ctx)
 	p.EvmDenom = "asetl"
@@ -248,6 +249,12 @@ func (w *World) execTx(f []string) (res Result) {
 	must(b.SetSignatures(sigs...))
 	bz, err := txCfg.TxEncoder()(b.GetTx())
 	must(err)
+	if f[0] == "sim" {
+		// a gas-estimation query: ante handlers and messages run on a branch that is thrown away; signatures are not verified.
+		// Whatever it answers, it must leave no trace.
+		_, _, _ = w.A.BaseApp.Simulate(bz)
+		return Result{Line: "done"}
+	}
 	r := w.A.DeliverTx(abci.RequestDeliverTx{Tx: bz})
 	line := "ok"
 	if r.Code != 0 {
